@@ -46,6 +46,14 @@ static const COp kOps[] = {
     { "mul", 2, 8, M_RESULT, D_ANY, [](cld a, cld b, cld) { return cld(a.real() * b.real() - a.imag() * b.imag(), a.real() * b.imag() + a.imag() * b.real()); }, false },
     { "fmul", 2, 8, M_RESULT, D_ANY, [](cld a, cld b, cld) { return cld(a.real() * b.real() - a.imag() * b.imag(), a.real() * b.imag() + a.imag() * b.real()); }, false },
     { "div", 2, 8, M_RESULT, D_NONZERO2, [](cld a, cld b, cld) { ld d = b.real() * b.real() + b.imag() * b.imag(); return cld((a.real() * b.real() + a.imag() * b.imag()) / d, (a.imag() * b.real() - a.real() * b.imag()) / d); }, false },
+    { "add_assign", 2, 8, M_RESULT, D_ANY, [](cld a, cld b, cld) { return a + b; }, false },
+    { "sub_assign", 2, 8, M_RESULT, D_ANY, [](cld a, cld b, cld) { return a - b; }, false },
+    { "mul_assign", 2, 8, M_RESULT, D_ANY, [](cld a, cld b, cld) { return cld(a.real() * b.real() - a.imag() * b.imag(), a.real() * b.imag() + a.imag() * b.real()); }, false },
+    { "div_assign", 2, 8, M_RESULT, D_NONZERO2, [](cld a, cld b, cld) { ld d = b.real() * b.real() + b.imag() * b.imag(); return cld((a.real() * b.real() + a.imag() * b.imag()) / d, (a.imag() * b.real() - a.real() * b.imag()) / d); }, false },
+    { "add_self", 1, 8, M_RESULT, D_ANY, [](cld a, cld, cld) { return a + a; }, false },
+    { "sub_self", 1, 8, M_MAX1, D_ANY, [](cld a, cld, cld) { return cld(0, 0) * a.real() * 0.0L; }, false },
+    { "mul_self", 1, 8, M_RESULT, D_ANY, [](cld a, cld, cld) { return cld(a.real() * a.real() - a.imag() * a.imag(), 2 * a.real() * a.imag()); }, false },
+    { "div_self", 1, 8, M_MAX1, D_ANY, [](cld a, cld, cld) { ld d = a.real() * a.real() + a.imag() * a.imag(); return cld((a.real() * a.real() + a.imag() * a.imag()) / d, (a.imag() * a.real() - a.real() * a.imag()) / d); }, false },
     { "fma", 3, 8, M_FUSED, D_ANY, [](cld a, cld b, cld c) { return a * b + c; }, false },
     { "fms", 3, 8, M_FUSED, D_ANY, [](cld a, cld b, cld c) { return a * b - c; }, false },
     { "fnma", 3, 8, M_FUSED, D_ANY, [](cld a, cld b, cld c) { return -(a * b) + c; }, false },
@@ -375,7 +383,11 @@ static void c16_type(Context& cx)
                 [&]() {
                     T x[32], y[32], z[32];
                     const bool exact_op = op.tol == 0; // neg conj proj real imag: any component value, compared bit for bit
-                    const int mode = *rc::gen::resize(100, rc::gen::inRange<int>(0, exact_op ? 6 : 4));
+                    int mode = *rc::gen::resize(100, rc::gen::inRange<int>(0, exact_op ? 7 : 5));
+                    // modes 0-3: log-polar grid / box; 4-5 (exact operations only): raw components; 6: independent component magnitudes
+                    const bool indep = exact_op ? mode == 6 : mode == 4;
+                    if (indep)
+                        mode = 6;
                     const int khi = box ? 4 : kmax;
                     auto px = *rc::gen::container<std::vector<Pol>>((size_t)n, rc::gen::resize(100, polg(-kmax, khi)));
                     auto py = *rc::gen::container<std::vector<Pol>>((size_t)n, rc::gen::resize(100, polg(mode == 1 ? -3 : -kmax, mode == 1 ? 3 : kmax)));
@@ -398,7 +410,25 @@ static void c16_type(Context& cx)
                             z[l] = u(4);
                             z[n + l] = u(5);
                         }
-                        if (mode >= 4)
+                        if (indep)
+                        {
+                            // real and imaginary part of independent magnitude (one huge, one tiny): the operand is finite and so is
+                            // every intermediate of the textbook formulas, but |z| is dominated by one component
+                            const int kc = sizeof(T) == 4 ? 45 : 480;
+                            auto comp = [&](int i) -> T {
+                                const uint64_t r = mix64(ur[6 * l + i]);
+                                const int ex = (int)(r % (uint64_t)(2 * kc + 1)) - kc;
+                                const ld m = 1.0L + (ld)((r >> 20) & 0xFFFFF) / 1048576.0L;
+                                return (T)(((r >> 63) ? -1 : 1) * ldexpl(m, (r >> 40) % 4 == 0 ? ex / 8 : ex));
+                            };
+                            x[l] = comp(0);
+                            x[n + l] = comp(1);
+                            y[l] = comp(2);
+                            y[n + l] = comp(3);
+                            z[l] = comp(4);
+                            z[n + l] = comp(5);
+                        }
+                        else if (mode >= 4)
                         {
                             // raw components: special values, huge / tiny magnitudes (|z|^2 overflows or underflows), arbitrary bit patterns
                             using L = std::numeric_limits<T>;
@@ -435,7 +465,7 @@ static void c16_type(Context& cx)
                             nontrivial = true;
                     }
                     cx.st.evaluations++;
-                    static const char* mn[] = { "grid", "grid_second_moderate", "grid_wide", "uniform_box", "raw_components", "raw_components" };
+                    static const char* mn[] = { "grid", "grid_second_moderate", "grid_wide", "uniform_box", "raw_components", "raw_components", "independent_components" };
                     cx.st.classes[std::string("mode_") + mn[mode]]++;
                     if (nontrivial)
                         cx.st.note_distinct(hash_bytes(x, sizeof(T) * 2 * n, hash_bytes(y, sizeof(T) * 2 * n, hash_str(op.name))));
